@@ -1041,6 +1041,24 @@ def rule_name_conversion(F, ev, R, config, rule="R-NAME-CONVERSION"):
                 selfty = g[1]
             n += 1
             ok = selfty in OKSELF
+            # … and it is the caller's spelling that is stored: between the `AsRef<str>` view and the String no function
+            # transforms the text (`trim`, `to_lowercase`, `replace`, a slice): the other builder methods compare verbatim names
+            VIEWS = ("as_ref", "borrow", "deref", "as_str", "clone", "to_owned", "to_string", "into", "from", "as_mut")
+            try:
+                v = ev.operand(Env(b), t["args"][-1], (bi, None)) if t.get("args") else None
+            except RecursionError:
+                v = None
+            tr = None
+            for y in (walk(v) if v is not None else ()):
+                if y[0] == "call" and y[1].rsplit("::", 1)[-1] not in VIEWS:
+                    tr = y[1]
+                    break
+                if y[0] in ("bin", "un", "index", "slice"):
+                    tr = y[0]
+                    break
+            R.add(rule, config, b.key, "name stored verbatim", tr is None,
+                  "" if tr is None else "the name is transformed by `%s` before it is stored: the model's names are no longer the caller's spelling that "
+                  "`function()` / `partial_deriv()` compare against" % tr, t.get("span"))
             R.add(rule, config, b.key, "name→String from str", ok,
                   "" if ok else "`%s` is applied to the caller's name type `%s` directly (not to its `AsRef<str>` view): names may be spelled differently "
                   "from the ones other builder methods see" % (f["path"], selfty[:60]), t.get("span"))
